@@ -80,6 +80,26 @@ class Report:
             self.bad("floor", name, "", "expected at least %d %s, analysed %d (fail closed)" % (want, name, got), kind="floor")
 
 
+class Renamed:
+    """view of a Report that files everything under other rule ids (a rule shared between two properties)"""
+
+    def __init__(self, rep, mapping):
+        self._rep = rep
+        self._map = mapping
+
+    def _r(self, rule):
+        return self._map(rule) if callable(self._map) else self._map.get(rule, rule)
+
+    def ok(self, rule, *a, **k):
+        return self._rep.ok(self._r(rule), *a, **k)
+
+    def bad(self, rule, *a, **k):
+        return self._rep.bad(self._r(rule), *a, **k)
+
+    def __getattr__(self, name):
+        return getattr(self._rep, name)
+
+
 class Ctx:
     def __init__(self, prop, tier, seed=0, repo=None):
         self.prop = prop
